@@ -207,10 +207,17 @@ func VH_C02_ReadRendered() {
 			doc += sepc + "region:" + cue.region
 		}
 		doc += eol
-		for _, l := range cue.lines {
-			doc += l.src + eol
+		for li, l := range cue.lines {
+			doc += l.src
+			last := c == len(cues)-1 && li == len(cue.lines)-1
+			// the document may end with a blank line, with a single line terminator, or with no terminator at all
+			if !(last && (k/2)%3 == 2) {
+				doc += eol
+			}
 		}
-		doc += eol
+		if !(c == len(cues)-1 && (k/2)%3 != 0) {
+			doc += eol
+		}
 	}
 	vreach("rendered")
 	s, err := ReadFromWebVTT(bytes.NewReader([]byte(doc)))
